@@ -229,6 +229,29 @@ theorem f18_witness :
   rw [marshalVT_eq]
   simp [vtEncStoreData, vtEncEntry, vtEncEntryBody, encVarint]
 
+/-! ## outside the property: streams that no encoder produces
+
+DESIGN §6 lists a stretch goal `fast_eq_spec_on_valid : specDecode bs = ok d → unmarshalVT bs ≈ ok d` for
+arbitrary well-formed bytes.  It is **not** a theorem of the code as it is: the hand-copied decoders and the
+standard decoder differ on well-formed streams that none of the encoders emits (the correspondence run shows the
+real decoders behave exactly like the model here).  Kernel-checked: -/
+
+/-- a known field with an unexpected wire type: the standard decoder skips it, the fast decoder fails -/
+example : specDecodeStoreData [0x08, 0x01] = .ok {} ∧ unmarshalVT [0x08, 0x01] = .error .wrongWireType :=
+  ⟨rfl, rfl⟩
+/-- a repeated key: same content, but the fast decoder's running size counts both occurrences -/
+example :
+    specDecodeStoreData [0x0a, 0x06, 0x0a, 0x01, 0x6b, 0x12, 0x01, 1, 0x0a, 0x06, 0x0a, 0x01, 0x6b, 0x12, 0x01, 2]
+      = .ok ⟨[([0x6b], [2])], []⟩ ∧
+    unmarshalVT [0x0a, 0x06, 0x0a, 0x01, 0x6b, 0x12, 0x01, 1, 0x0a, 0x06, 0x0a, 0x01, 0x6b, 0x12, 0x01, 2]
+      = .ok (⟨[([0x6b], [2])], []⟩, 4) := ⟨rfl, rfl⟩
+/-- a Timestamp field occurring twice: the standard decoder merges (7 s, 9 ns), the fast decoder resets (0 s, 9 ns) -/
+example :
+    specDecodeArray [0x0a, 0x08, 0x22, 0x02, 0x08, 0x07, 0x22, 0x02, 0x10, 0x09]
+      = .ok [⟨0, [], [], some ⟨7, 9⟩, []⟩] ∧
+    unmarshalArrayVT [0x0a, 0x08, 0x22, 0x02, 0x08, 0x07, 0x22, 0x02, 0x10, 0x09]
+      = .ok [⟨0, [], [], some ⟨0, 9⟩, []⟩] := ⟨rfl, rfl⟩
+
 /-! ## non-vacuity: the hypotheses are met by concrete, non-trivial instances -/
 
 /-- a store content with a multi-byte UTF-8 key (`"é"`), an empty value, the empty key and a prefix: all
